@@ -45,8 +45,9 @@ def report(prop, tier, seed, cfg, docs, t0):
                 "backend": b, "tier": tier, "block": ex["block"] if ex else None, "example": ex,
             })
     # vacuity guards: floors this run must reach (per back-end)
+    # (they vouch for a "held" verdict; a run that found violations reports them whatever it covered)
     floors = cfg.get("floors", {}).get(tier, cfg.get("floors", {}).get("quick", {}))
-    for b, d in docs.items():
+    for b, d in ([] if violations else docs.items()):
         for k, minimum in floors.items():
             got = d["counters"].get(k, 0)
             if got < minimum:
